@@ -2,6 +2,7 @@
 Spec: RulePurity.tla (memo machine), binding: traces/RulesTrace.tla on observations merged from
 worker processes started with different PYTHONHASHSEED values."""
 import os
+import json
 import random
 import time
 
@@ -296,7 +297,20 @@ def run(tier):
             targets = rng.sample(pool, rng.randint(0, 3))
             others = [(rng.choice(pool), rng.choice(pool)) for _ in range(rng.randint(0, 2))]
             tab = [[xq, t] for t in targets] + [[a, b] for a, b in others if a != xq]
-            ht.append({'t': len(ht), 'op': 'un', 'lang': lang, 'x': xq, 'table': tab, 'hist_table': mode})
+            xlook = xq
+            if lang == 'en' and step and rng.random() < 0.5:
+                # the table is consulted under the category itself: a left-hand side that differs from the category only by a
+                # feature that other parts of the grammar ignore ('nb', a variable) is another entry
+                twin = json.loads(json.dumps(xq))
+                at = rng.choice(enc.leaves(twin))
+                fv = at['f'].get('v', '') if at['f'].get('t') == 'U' else None
+                if fv is not None:
+                    at['f'] = {'t': 'U', 'v': rng.choice([v for v in ('', 'nb', 'X') if v != fv])}
+                    if rng.random() < 0.5:
+                        tab = tab + [[twin, t] for t in rng.sample(pool, rng.randint(1, 2))]      # both spellings are keys
+                    if rng.random() < 0.6:
+                        xlook = twin
+            ht.append({'t': len(ht), 'op': 'un', 'lang': lang, 'x': xlook, 'table': tab, 'hist_table': mode})
     ob5 = rules.run_tasks(ht, 'c14e', split=False, hashseeds=seeds[:2])
     for t in ht:
         o = ob5[seeds[0]][t['t']][0]
